@@ -23,7 +23,7 @@ RULE = ("scenarios = content operations followed by saves, enumerated by TLC (BF
         "k (RLIMIT_FSIZE = k, every k in 0..N+2 for small packages, evenly spaced + edges + buffer boundaries for large "
         "ones) and once more without a limit; every call is one judged observation")
 
-GROUPS = ["sweep-all", "sweep-large", "targets", "md-targets", "md-sweep", "resave"]
+GROUPS = ["sweep-all", "sweep-large", "targets", "md-targets", "md-sweep", "resave", "opened"]
 
 
 def gencfg(ctx, name, groups):
